@@ -173,6 +173,9 @@ func leakSig(leaked string) string {
 }
 
 func reqCtx(i int, suffix string, d time.Duration) (context.Context, context.CancelFunc) {
+	if r := simrt.Cur(); r != nil {
+		d = r.Unique(d) // concurrent twins must not share a deadline instant
+	}
 	return context.WithTimeout(simrt.WithReq(context.Background(), fmt.Sprintf("r%d%s", i, suffix)), d)
 }
 
